@@ -206,6 +206,28 @@ class P:
         while not self.at("}"):
             if self.at(";"):
                 self.eat(";"); continue
+            if self.at("#"):
+                # an attribute on a statement: only the verification hook's own cfg is understood (its statement is
+                # compiled out in every build the properties are about); any other attribute selects code by configuration
+                self.eat("#"); self.eat("[")
+                toks = []
+                depth = 1
+                while depth:
+                    k, v = self.eat()
+                    if v == "[": depth += 1
+                    elif v == "]": depth -= 1
+                    if depth: toks.append(v)
+                if toks != ["cfg", "(", "rrtk_verif", ")"]:
+                    raise ParseError("attribute #[%s] on a statement" % " ".join(toks))
+                save = (stmts[:], tail)
+                # parse and drop the next statement
+                if self.at("unsafe") or self.at("{"):
+                    if self.at("unsafe"): self.eat("unsafe")
+                    self.block()
+                else:
+                    self.expr()
+                    if self.at(";"): self.eat(";")
+                continue
             if self.at("let"):
                 self.eat("let")
                 p = self.pattern()
@@ -215,7 +237,10 @@ class P:
                 stmts.append(("let", p, e))
                 continue
             if self.at("for"):
-                self.eat("for"); _, x = self.eat(); self.eat("in"); coll = self.expr(nostruct=True); body = self.block()
+                self.eat("for"); _, x = self.eat(); self.eat("in"); coll = self.expr(nostruct=True)
+                if self.at(".."):
+                    self.eat(".."); hi = self.expr(nostruct=True); coll = ("range", coll, hi)
+                body = self.block()
                 stmts.append(("expr", ("for", x, coll, body)))
                 continue
             if self.at("while"):
@@ -259,7 +284,16 @@ class P:
         if self.at("ref"): self.eat("ref"); return self.pattern1()
         if self.at("_"): self.eat(); return ("pwild",)
         if self.at("("):
-            self.eat("("); self.eat(")"); return ("punit",)
+            self.eat("(")
+            if self.at(")"):
+                self.eat(")"); return ("punit",)
+            ps = []
+            while not self.at(")"):
+                ps.append(self.pattern())
+                if self.at(","): self.eat(",")
+            self.eat(")"); return ("ptuple", ps)
+        if self.peek()[0] == "num":
+            return ("pint", self.eat()[1])
         if self.at("["):
             self.eat("["); ps = []
             while not self.at("]"):
@@ -374,8 +408,13 @@ class P:
             self.eat("["); es = []
             while not self.at("]"):
                 es.append(self.expr())
+                if self.at(";") and len(es) == 1:
+                    self.eat(";"); n = self.expr(); self.eat("]")
+                    return ("arrayrep", es[0], n)
                 if self.at(","): self.eat(",")
             self.eat("]"); return ("array", es)
+        if v == "unsafe" and self.peek(1)[1] == "{":
+            self.eat("unsafe"); return self.block()
         if v == "{":
             return self.block()
         if v == "match":
@@ -454,6 +493,8 @@ class Emitter:
         self.tmp = 0
         self.depth = 0
         self.inputs = set()
+        self.int_vars = set()         # locals initialised with an integer literal: usize counters
+        self.array_input = None       # the field iterated by `for _ in &self.<field>`: its length is the const generic N
 
     def fresh(self, base="t"):
         self.tmp += 1
@@ -482,6 +523,31 @@ class Emitter:
         if k == "bin" and e[1] in OPS: return self.is_int(e[2]) and self.is_int(e[3])
         return False
 
+    def is_usize(self, e):
+        k = e[0]
+        if k == "num": return "." not in e[1]
+        if k == "path": return len(e[1]) == 1 and e[1][0] in self.int_vars
+        if k == "paren": return self.is_usize(e[1])
+        if k == "bin" and e[1] in ("+", "-"): return self.is_usize(e[2]) and self.is_usize(e[3])
+        return False
+
+    def find_array_input(self, ast):
+        if isinstance(ast, tuple):
+            if ast and ast[0] == "for":
+                x = ast[2]
+                while isinstance(x, tuple) and x[0] in ("unary", "paren"):
+                    x = x[2] if x[0] == "unary" else x[1]
+                if isinstance(x, tuple) and x[0] == "field" and x[1] == ("path", ["self"]):
+                    return x[2]
+            for y in ast:
+                r = self.find_array_input(y)
+                if r: return r
+        elif isinstance(ast, list):
+            for y in ast:
+                r = self.find_array_input(y)
+                if r: return r
+        return None
+
     def lst(self, items):
         return "[" + "; ".join(items) + "]"
 
@@ -493,6 +559,8 @@ class Emitter:
         if k == "punit": return "PUnit"
         if k == "pbool": return "(PBool %s)" % ("true" if p[1] else "false")
         if k == "parr": return "(PArr %s)" % self.lst([self.pat(x) for x in p[1]])
+        if k == "ptuple": return "(PArr %s)" % self.lst([self.pat(x) for x in p[1]])
+        if k == "pint": return "(PInt %d)" % int(re.sub(r"_?(usize|u16|i64|u8|i8)$", "", p[1]).replace("_", ""))
         if k == "por": return "(POr %s)" % self.lst([self.pat(x) for x in p[1]])
         if k == "pts":
             name = p[1][-1]
@@ -618,7 +686,19 @@ class Emitter:
         if k == "paren": return self.expr(e[1])
         if k == "num":
             if "." in e[1]: return self.lit_f(e[1])
-            raise ParseError("integer literal %s outside a known context" % e[1])
+            return "(ELit (VI %d))" % int(re.sub(r"_?(usize|u16|i64|u8|i8)$", "", e[1]).replace("_", ""))
+        if k == "index":
+            return "(EIndex %s %s)" % (self.expr(e[1]), self.expr(e[2]))
+        if k == "arrayrep":
+            x = e[1]
+            if x[0] == "call" and x[1][0] == "path" and x[1][1][-2:] == ["MaybeUninit", "uninit"] and not x[2]:
+                n = e[2]
+                if n == ("path", ["N"]):
+                    if not self.array_input: raise ParseError("const generic N without an iterated array field")
+                    self.inputs.add(self.array_input)
+                    return "(EArrUninit (ELen (EVar %s)))" % qs("get:" + self.array_input)
+                return "(EArrUninit %s)" % self.expr(n)
+            raise ParseError("array repeat expression")
         if k == "bool": return "(ELit (VB %s))" % ("true" if e[1] else "false")
         if k == "cast":
             if e[2] == "f32": return "(ECast true %s)" % self.expr(e[1])
@@ -647,6 +727,8 @@ class Emitter:
             if e[1] == "!": return "(EOp 10 [%s])" % self.expr(e[2])
         if k == "bin":
             o = e[1]
+            if o in ("+", "-") and self.is_usize(e[2]) and self.is_usize(e[3]):
+                return "(EUs %d %s %s)" % (OPS[o], self.expr(e[2]), self.expr(e[3]))
             if o in OPS and self.is_int(e[2]) and self.is_int(e[3]):
                 return "(EInt %d [%s; %s])" % (OPS[o], self.expr(e[2]), self.expr(e[3]))
             if o in OPS: return "(EOp %d [%s; %s])" % (OPS[o], self.expr(e[2]), self.expr(e[3]))
@@ -697,6 +779,10 @@ class Emitter:
                     self.inputs.add(x[2])
                     return "(EVar %s)" % qs("get:" + x[2])
                 return self.expr(x)
+            if name == "write" and len(args) == 1 and recv[0] == "index":
+                return "(EWriteSlot %s %s %s)" % (self.lval(recv[1]), self.expr(recv[2]), self.expr(args[0]))
+            if name == "assume_init" and not args: return "(EAssumeInit %s)" % self.expr(recv)
+            if name == "split_at" and len(args) == 1: return "(ESplitAt %s %s)" % (self.expr(recv), self.expr(args[0]))
             if name in ("clone", "to_owned") and not args: return self.expr(recv)
             if name == "into" and not args: return "(EInto %s)" % self.expr(recv)
             if name in ("unwrap",) and not args: return "(EUnwrap %s)" % self.expr(recv)
@@ -732,6 +818,8 @@ class Emitter:
             return "(EReturn %s)" % (self.expr(e[1]) if e[1] is not None else "EUnit")
         if k == "assign":
             return "(EAssign %s %s)" % (self.lval(e[1]), self.expr(e[2]))
+        if k == "opassign" and e[1] in ("+", "-") and self.is_usize(e[2]) and self.is_usize(e[3]):
+            return "(EAssign %s (EUs %d %s %s))" % (self.lval(e[2]), OPS[e[1]], self.expr(e[2]), self.expr(e[3]))
         if k == "opassign" and self.is_int(e[2]) and self.is_int(e[3]):
             return "(EAssign %s (EInt %d [%s; %s]))" % (self.lval(e[2]), OPS[e[1]], self.expr(e[2]), self.expr(e[3]))
         if k == "opassign":
@@ -744,6 +832,8 @@ class Emitter:
             return "(EIf %s %s %s)" % (self.expr(e[1]), th, el)
         if k == "match":
             return "(EMatch %s %s)" % (self.expr(e[1]), self.lst(["(%s, %s)" % (self.pat(p), self.expr(b)) for p, b in e[2]]))
+        if k == "for" and e[2][0] == "range":
+            return "(EForRange %s %s %s %s)" % (qs(e[1]), self.expr(e[2][1]), self.expr(e[2][2]), self.expr(e[3]))
         if k == "for":
             return "(EFor %s %s %s)" % (qs(e[1]), self.for_coll(e[2]), self.expr(e[3]))
         if k == "block":
@@ -768,6 +858,8 @@ class Emitter:
             place = self.alias_place(s[2])
             if place is not None:
                 return self.block(self.subst_ident(stmts[1:], s[1][1], place), self.subst_ident(tail, s[1][1], place) if tail is not None else None)
+        if s[0] == "let" and s[1][0] == "pvar" and s[2][0] == "num" and "." not in s[2][1]:
+            self.int_vars.add(s[1][1])
         if s[0] == "let":
             rest = self.block(stmts[1:], tail)      # NB: evaluation order is that of the emitted term, not of emission
             return "(ELet %s %s %s)" % (self.pat(s[1]), self.expr(s[2]), rest)
